@@ -259,6 +259,8 @@ type FuncCtx struct {
 	deferred   []*ast.DeferStmt
 	retCount   int
 	inlineStack []*inlineFrame // function literals being executed in place
+	sliceCopies map[types.Object]types.Object // slice header copied inside a loop from a variable declared outside it
+	loopDepthPos []token.Pos // positions of the loops being executed (innermost last)
 	specPos    token.Pos
 	curCallee  *calleeCtx // when evaluating a callee's contract
 	theories   map[string]bool
